@@ -323,7 +323,7 @@ pub fn gen_c03(tier: &str, seed: u64) -> Vec<Vec<String>> {
             let long = r.chance(1, 3);
             let ls: Vec<String> = (0..nl).map(|i| {
                 // now and then a record far above every buffer size the crate keeps between records
-                let len = if long && r.chance(1, 12) { *r.pick(&[9_000usize, 20_000, 40_000]) } else { *r.pick(&[8usize, 12, 20, 35, 64, 130]) };
+                let len = if long && r.chance(1, 12) { *r.pick(&[9_000usize, 20_000, 40_000, 70_000, 140_000]) } else { *r.pick(&[8usize, 12, 20, 35, 64, 130]) };
                 let h = hex(&line_for(t, i, len));
                 if recursive && i + 1 < nl && r.chance(1, 3) { format!("R{h}") } else { h }
             }).collect();
